@@ -5,7 +5,7 @@ from ..apigen import File
 from . import c11_util as U
 
 RULE = ("APIs drawn from a grammar: package out of 8 shapes (0..3 namespace segments, v1/v1beta1/v1p1beta1/no version), 1-2 target "
-        "files, 1-3 services with 1-6 RPCs (plus services that declare no RPC, alone or next to ordinary ones, and services declared in a proto sub-package next to root-package services) whose names come from a pool with Python keywords in every letter case, leading "
+        "files, 1-3 services with 1-6 RPCs (plus services that declare no RPC, alone or next to ordinary ones, and services declared in a proto sub-package next to root-package services; rpcs are unary, client-streaming, bidi or server-streaming) whose names come from a pool with Python keywords in every letter case, leading "
         "underscores, digits/acronyms and names shared between services; request messages with 0-6 fields (reserved words, random "
         "REQUIRED flags) or non-proto-plus requests (google.iam/longrunning/protobuf); transports grpc, rest, grpc+rest; "
         "optionally a service YAML marking some RPCs internal (selective generation, generate_omitted_as_internal). "
@@ -71,26 +71,34 @@ def meta_api(r, defect_case=False):
         names = list(dict.fromkeys(r.sample(RPC_POOL, r.randint(1, 6))))
         if defect_case == "unsafe" and si == 0:
             names = list(dict.fromkeys(TRANSPORT_UNSAFE + names))[:5]
-        elif defect_case and si == 0:
+        elif defect_case is True and si == 0:
             names = ["GetBook", "Getbook"] + [n for n in names if n.lower() != "getbook"][:2]
         for ri, rn in enumerate(names):
-            if r.random() < 0.12:
+            forced = defect_case == "streaming" and ri < 3      # streaming stream: requests with fields (REQUIRED, reserved words)
+            if r.random() < 0.12 and not forced:
                 typ, dep = r.choice(NON_PP)
                 f.dep(dep)
                 inp = typ
             else:
                 msg_i += 1
                 m = f.message(f"Req{msg_i}")
-                fns = r.sample(FIELD_POOL, r.randint(0, 6))
+                fns = r.sample(FIELD_POOL, r.randint(2 if forced else 0, 6))
+                if forced and not any(x in ("class", "from", "type", "import", "in") for x in fns):
+                    fns[0] = r.choice(["class", "from", "type"])
                 # declaration order is deliberately NOT field-number order (descending or shuffled numbers)
                 nums = list(range(1, len(fns) + 1))
                 if r.random() < 0.75:
                     nums = nums[::-1] if r.random() < 0.4 else r.sample(nums, len(nums))
                 for k, fn in enumerate(fns):
-                    m.field(fn, nums[k], r.choice(["string", "int32", "bool", "bytes"]), required=r.random() < 0.4,
-                            repeated=r.random() < 0.15)
+                    m.field(fn, nums[k], r.choice(["string", "int32", "bool", "bytes"]),
+                            required=(r.random() < 0.4) or (forced and k == len(fns) - 1), repeated=r.random() < 0.15)
                 inp = m.fqn
-            svc.rpc(rn, inp, resp.fqn, http=("post", f"/v1/{sname.lower()}/r{ri}:call"), body="*")
+            # client-streaming / bidi / server-streaming rpcs: the fix-up table lists the request fields of EVERY rpc
+            sk = None
+            if (defect_case == "streaming" and ri < 3) or r.random() < 0.15:
+                sk = r.choice(["client", "bidi", "client", "bidi", "server"])
+            cs, ss = {"client": (True, False), "bidi": (True, True), "server": (False, True), None: (False, False)}[sk]
+            svc.rpc(rn, inp, resp.fqn, cs=cs, ss=ss, http=("post", f"/v1/{sname.lower()}/r{ri}:call"), body="*")
             all_rpcs.append(f"{pkg}.{sname}.{rn}")
     versioned = bool(re.fullmatch(r"v[0-9]+(p[0-9]+)?((alpha|beta)[0-9]*)?", pkg.split(".")[-1])) and "." in pkg
     if versioned and (defect_case == "subpkg" or (not defect_case and r.random() < 0.15)):
@@ -210,6 +218,12 @@ def extra_features(case, d):
         out.append("service without rpcs")
     if any(s["sub"] for s in d["svcs"]):
         out.append("service in a proto sub-package")
+    for fp in req.proto_file:
+        if fp.name in req.file_to_generate:
+            for sv in fp.service:
+                for m in sv.method:
+                    if m.client_streaming and "client-streaming / bidi rpc" not in out:
+                        out.append("client-streaming / bidi rpc")
     if names & set(TRANSPORT_UNSAFE):
         out.append("transport-unsafe rpc name")
     if len({n.lower() for n in names}) < len(names):
@@ -559,6 +573,7 @@ def run(ctx):
     cases += [c for c in (make_case("C15-t2-unsafe", i, "unsafe") for i in range(ctx.n(3, 20))) if c]
     cases += [c for c in (make_case("C15-t2-empty", i, "empty") for i in range(ctx.n(4, 24))) if c]
     cases += [c for c in (make_case("C15-t2-subpkg", i, "subpkg") for i in range(ctx.n(4, 24))) if c]
+    cases += [c for c in (make_case("C15-t2-streaming", i, "streaming") for i in range(ctx.n(4, 24))) if c]
     checks = run_t2(ctx, cases) + run_strings(ctx, ctx.n(150, 1500))
     failing, errors, nf = evaluate(ctx, "c15t2", checks, "T2")
     ctx.oblige(f"T2 model = gapic schema objects (gapic_metadata, client/method names, legacy_flattened_fields, snake/module names) "
@@ -570,6 +585,7 @@ def run(ctx):
     e2e += [c for c in (make_case("C15-e2e-unsafe", i, "unsafe") for i in range(ctx.n(2, 8))) if c]
     e2e += [c for c in (make_case("C15-e2e-empty", i, "empty") for i in range(ctx.n(3, 10))) if c]
     e2e += [c for c in (make_case("C15-e2e-subpkg", i, "subpkg") for i in range(ctx.n(3, 12))) if c]
+    e2e += [c for c in (make_case("C15-e2e-streaming", i, "streaming") for i in range(ctx.n(3, 12))) if c]
     checks = run_e2e(ctx, e2e)
     failing, errors, nf = evaluate(ctx, "c15t1", checks, "T1")
     ctx.oblige(f"T1 emitted gapic_metadata.json, METHOD_TO_PARAMS and emitted class/def names = model output "
